@@ -123,6 +123,12 @@ func implementsUnpacker(t reflect.Type) bool {
 		return false
 	}
 
+	// An interface type has no value to call Unpack on (a field typed as
+	// Unpacker holding nil); a value stored in it is tested by its own type.
+	if t.Kind() == reflect.Interface {
+		return false
+	}
+
 	for _, tUnpack := range tUnpackers {
 		if t.Implements(tUnpack) {
 			return true
